@@ -18,6 +18,19 @@ for line in p.stdout.splitlines():
     if e.get("Test") and e.get("Action") in ("pass", "fail", "skip"):
         res[e["Package"] + "::" + e["Test"]] = e["Action"]
 missing = sorted(t for t in stable if res.get(t) != "pass")
+if missing:
+    # the machine may be busy (other checks running): re-run the packages concerned once, alone
+    pkgs = sorted(set(t.split("::")[0] for t in missing))
+    p2 = subprocess.run(["go", "test", "-json", "-vet=off", "-count=1", "-p", "1", "-timeout", "25m"] + pkgs, cwd=repo, env=env,
+                        stdout=subprocess.PIPE, stderr=subprocess.DEVNULL, text=True)
+    for line in p2.stdout.splitlines():
+        try:
+            e = json.loads(line)
+        except ValueError:
+            continue
+        if e.get("Test") and e.get("Action") in ("pass", "fail", "skip"):
+            res[e["Package"] + "::" + e["Test"]] = e["Action"]
+    missing = sorted(t for t in stable if res.get(t) != "pass")
 print("stable_pass: %d, passing now: %d, not passing: %d" % (len(stable), len(stable) - len(missing), len(missing)))
 for t in missing[:50]:
     print("  NOT PASSING:", t, res.get(t))
